@@ -9,7 +9,13 @@ class P(C07):
     filters = [(), (1,), (2,), (1, 2), (2, 1), (7,), (1, 7), (3, 1), (4, 2), (4095,),
                # unlisted look-alikes of the standard types: congruent to 1 / 2 modulo powers of two, vendor formats 1 / 2, all bits
                (65,), (66,), (129, 7), (33,), (34, 9), (257,), (258,), (4097,), (8194,), (65537,), (65538,), (2147483649,), (4294967295,),
-               (9, 17), (3, 5, 6, 10, 18)]
+               (9, 17), (3, 5, 6, 10, 18),
+               # LONG lists (a list has no length limit): the type that matters at the 9th, 17th, 33rd, 65th place, after vendor formats
+               # and duplicates; both types at the very end
+               (3, 4, 18075649, 18075650, 36044801, 36044802, 23359489, 23359490, 2),
+               (3, 3, 3, 3, 4, 4, 4, 4, 1),
+               tuple(range(100, 116)) + (2,), tuple(range(100, 132)) + (1,), tuple(range(100, 164)) + (2, 1),
+               tuple(range(5, 13)) + (1,) + tuple(range(13, 40))]
 
     def rule(self):
         return ("the C07 datagram stream, each datagram decoded under one of the filter lists %s (unsorted lists included); "
@@ -21,7 +27,7 @@ class P(C07):
     def extra(self, tier, rng, known):
         """the filter list as the options code builds it (vflow/options.go arrUInt32Flags.Set + flagSet)"""
         cases, want = [], []
-        lists = [[1], [2], [1, 2], [2, 1], [7, 1], [4, 2, 1], [4095], [1, 1001, 2]]
+        lists = [[1], [2], [1, 2], [2, 1], [7, 1], [4, 2, 1], [4095], [1, 1001, 2], list(range(100, 120)) + [2, 1]]
         if tier != "quick":
             lists += [[rng.randrange(1, 5000) for _ in range(rng.choice([2, 3, 5]))] for _ in range(40)]
         for l in lists:
